@@ -48,24 +48,22 @@ pub fn mul_div(a: i32, b: i32, c: i32) -> i32 {
 pub fn mul_div_no_round(mut a: i32, mut b: i32, mut c: i32) -> i32 {
     let mut s = 1;
     if a < 0 {
-        a = -a;
+        a = a.wrapping_neg();
         s = -1;
     }
     if b < 0 {
-        b = -b;
+        b = b.wrapping_neg();
         s = -s;
     }
     if c < 0 {
-        c = -c;
+        c = c.wrapping_neg();
         s = -s;
     }
-    let d = if c > 0 {
-        ((a as i64) * (b as i64)) / c as i64
-    } else {
-        0x7FFFFFFF
-    };
+    // the magnitudes as unsigned values: i32::MIN stays 2^31
+    let (a, b, c) = (a as u32 as i64, b as u32 as i64, c as u32 as i64);
+    let d = if c > 0 { (a * b) / c } else { 0x7FFFFFFF };
     if s < 0 {
-        -(d as i32)
+        (d as i32).wrapping_neg()
     } else {
         d as i32
     }
